@@ -8,6 +8,7 @@ handlers) are not reachable, the rest of the statement is carried by the tie (ch
 -/
 import XrayProofs.Lex
 import Generated.Rules
+import Generated.HashIter
 namespace XrayModel.C12
 open XrayModel.Lex XrayModel.Generated.Rules
 
@@ -18,6 +19,14 @@ theorem arms_cover :
 
 /-- the table is not empty: the eight match sites of parser.rs over the grammar's rules -/
 theorem arms_table_nonempty : sites.length = 8 ∧ 80 ≤ ruleCount := by decide
+
+/-- determinism hazard table: std's HashMap/HashSet iterate in a per-instance random order, so every iteration over
+one in the compile path (parser, compilation_scope, xtype, compile_err, root_compilation_scope; found by
+translate/hashiter.py on every run) must be a reviewed one, whose result does not depend on the order (each entry of
+`reviewed` says why); a new iteration site, or a reviewed one that vanished, breaks this theorem -/
+theorem hash_iteration_sites_reviewed :
+    (∀ s ∈ Generated.HashIter.found, s ∈ Generated.HashIter.reviewed.map Prod.fst) ∧
+    (∀ r ∈ Generated.HashIter.reviewed.map Prod.fst, r ∈ Generated.HashIter.found) := by decide
 
 /-- `apply_escapes` never panics, whatever the text between the quotes -/
 theorem escapes_total (cs : List Char) : ¬ (applyEscapes cs).isPanic :=
